@@ -812,7 +812,15 @@ fn operand_json<'tcx>(d: &mut Dumper<'tcx>, n: &Node<'tcx>, env: TypingEnv<'tcx>
                                         match prv {
                                             Rvalue::Use(o, _) => ops.push(o),
                                             Rvalue::Cast(_, o, _) => ops.push(o),
-                                            Rvalue::Aggregate(_, os) => { for o in os.iter() { ops.push(o); } }
+                                            Rvalue::Aggregate(ak, os) => {
+                                                if let mir::AggregateKind::Adt(adid, vidx, _, _, _) = &**ak {
+                                                    let adef = tcx.adt_def(*adid);
+                                                    if adef.is_enum() {
+                                                        texts.push(J::s(&format!("variant:{}::{}", tcx.def_path_str(*adid), adef.variant(*vidx).name)));
+                                                    }
+                                                }
+                                                for o in os.iter() { ops.push(o); }
+                                            }
                                             Rvalue::Repeat(o, _) => ops.push(o),
                                             _ => {}
                                         }
